@@ -446,6 +446,12 @@ read_chunk()
 {
     // TODO: enforce chunk alignment!
 
+    if (reached_eof_chunk) {
+        // the EOF chunk must be the very last chunk
+        state_ = ReadState::Error;
+        error_msg_ = "Chunk found after EOF chunk";
+        return;
+    }
     ChunkHeader header;
     auto decoder = stream_.make_decoder(ovmb_size<ChunkHeader>);
     read(decoder, header);
